@@ -95,6 +95,9 @@ var c15Templates = []c15Tmpl{
 	{text: "§1 := D2.Helper(a)\nout += §1 + D2.Helper(¤)", n: 1, dep2: true},
 	{text: "for §1 := 0; §1 < 2; §1++ {\n\tout += D2.Helper(§1 + a)\n}", n: 1, dep2: true},
 	{text: "§1 := struct{ n int }{n: a}\n§2 := D2.Helper(§1.n)\nout += §2", n: 2, dep2: true},
+	// selecting a field and calling a method directly on a variable of the second dependency package: when that
+	// package is dot-imported the operand of the selector is a bare identifier that needs a qualifier in the copy
+	{text: "§1 := D2.Default.N + a\nout += D2.Default.Label() + SC.Itoa(§1) + D2.Rec{N: ¤}.Label()", n: 1, dep2: true},
 	// locals declared inside the clauses of a type switch, next to the switch's own variable
 	{text: "for _, §2 := range []interface{}{a, \"s\", 2.5} {\n\tswitch §1 := §2.(type) {\n\tcase int:\n\t\t§3 := §1 + ¤\n\t\tout += SC.Itoa(§3) + SC.Itoa(§1)\n\tcase string:\n\t\tif §3 := ST.ToUpper(§1); §3 != §1 {\n\t\t\tout += §3 + §1\n\t\t}\n\tdefault:\n\t\t§3 := F.Sprint(§1)\n\t\tout += §3\n\t}\n}", n: 3},
 	// nested closures capturing locals of enclosing scopes
@@ -330,7 +333,7 @@ func (cs *C15Case) files(prog string) map[string]string {
 	base := ProgPath(prog)
 	out := map[string]string{
 		"lib/lib.go":       "package dep\n\nimport \"strconv\"\n\ntype Box struct{ N int }\n\nfunc (b Box) Show() string { return \"box\" + strconv.Itoa(b.N) }\n\nconst K = 7\n\nvar V = 3\n\nfunc Helper(n int) string { return \"lib\" + strconv.Itoa(n) }\n",
-		"other/dep/dep.go": "package dep\n\nimport \"strconv\"\n\nfunc Helper(n int) string { return \"other\" + strconv.Itoa(n*2) }\n",
+		"other/dep/dep.go": "package dep\n\nimport \"strconv\"\n\nfunc Helper(n int) string { return \"other\" + strconv.Itoa(n*2) }\n\ntype Rec struct{ N int }\n\nfunc (r Rec) Label() string { return \"rec\" + strconv.Itoa(r.N) }\n\nvar Default = Rec{N: 5}\n",
 		"prov.go":          "package app\n\nimport lib \"" + base + "/lib\"\n\nfunc NewBox() lib.Box { return lib.Box{N: 5} }\n",
 	}
 	var w strings.Builder
